@@ -19,6 +19,7 @@ from vlib import sqlo
 PROP = 'C20'
 KEY_FAILED = 'C20:failed-update-appends-version'
 KEY_RESTORE_CONN = 'C20:restore-ignores-explicit-connection'
+KEY_DETACHED = 'C20:held-master-detached-by-commit'
 META = {
     'extractors': ['pyversion'],
     'technique': ('Lean 4 proof (history invariant by induction over the operation list; per-step frame lemma for '
@@ -45,6 +46,10 @@ META = {
              'connection mode: caching / cache=False / two databases with masters made through connection= / every master '
              'bound to a transaction of a file database, checked again after commit / a cache with cullFrequency 0-3 and '
              'cullFraction 2-3 so that several culls fall inside a history, with interleaved Master.get() of held masters; '
+             'on file databases (cache on / cache=False) a third of the updates is made through a transaction that is committed '
+             '(model: an ordinary update) or rolled back (model: nothing) while the plain connection\'s instance stays held; in 30% of '
+             'the cases a second versioned class declared with Versioning(extraCols=<columns named like master columns of the '
+             'class under test>) is created, updated and restored in between; '
              'primary keys: AUTOINCREMENT ints (65%), explicit string keys that are mostly numeric look-alikes '
              "('7', '07', '7.0', '7e0', '', ' 7' ...; 25%) or explicit ints incl. 0, negatives and > 2^31 (10%), the same keys in "
              'every database of a case; masters are constructor-made and held; '
@@ -61,6 +66,9 @@ META = {
                     'column keywords distinct and none of id/masterID/dateArchived; the master class is not inheritable (childName None)',
                     'the theorem versions_are_history holds for histories without a failing update only: the code snapshots on '
                     'the before-event (known finding ' + KEY_FAILED + ')',
+                    'after a COMMITTED transactional update the program fetches the master again (guarded stream): commit() expires '
+                    'the plain connection\'s instance and expire() evicts it from the cache (open C04:expire-then-get); the unguarded '
+                    'history is replayed as known finding ' + KEY_DETACHED,
                     'one live instance per row and connection (the identity map, C04); the cache=False stream checks that the '
                     'held master shows the row after every step'],
     'exhaustive': False,
@@ -87,10 +95,12 @@ def env():
     atexit.register(shutil.rmtree, d, True)
     _env['file'] = sqlo.file_conn(os.path.join(d, 'tx.db'))   # transactions need a database two connections share
     _env['file'].query('PRAGMA synchronous=OFF')
+    _env['filenc'] = sqlo.file_conn(os.path.join(d, 'txnc.db'), cache=False)   # the same with cache=False
+    _env['filenc'].query('PRAGMA synchronous=OFF')
     return _env
 
 
-MODES = ('mem', 'nocache', 'twodb', 'tx', 'cull')
+MODES = ('mem', 'nocache', 'twodb', 'tx', 'cull', 'txmix', 'txmixnc')
 
 
 def enc_val(v):
@@ -106,7 +116,16 @@ def enc_kw(kw):
     return ','.join('%d=%s' % (k, enc_val(v)) for k, v in items) or '-'
 
 
+SKIP_OPS = ('G', 'TX', 'X')     # executed on the real code only: the model state does not change
+
+
 def enc_op(op):
+    if op[0] == 'T':            # assignment through a transaction that is committed at once = an assignment
+        return 'A %d %d %s' % (op[1], op[2], enc_val(op[3]))
+    if op[0] == 'TS':
+        return 'S %d %s' % (op[1], enc_kw(op[2]))
+    if op[0] in SKIP_OPS:
+        return '%s %s' % (op[0], ' '.join(str(x) for x in op[1:]))
     if op[0] == 'C':
         return 'C %s' % enc_kw(op[1])
     if op[0] == 'A':
@@ -123,17 +142,17 @@ def mode_of(case):
 def line_of(case):
     if mode_of(case) == 'twodb':
         return 'W %d %s %d | %s' % (NCOLS, ','.join(enc_val(v) for v in DEFAULTS), 1 if case['uniq0'] else 0,
-                                    ' ; '.join('@%d %s' % (d, enc_op(op)) for d, op in case['ops']))
+                                    ' ; '.join('@%d %s' % (d, enc_op(op)) for d, op in case['ops'] if op[0] not in SKIP_OPS))
     return 'V %d %s %d | %s' % (NCOLS, ','.join(enc_val(v) for v in DEFAULTS), 1 if case['uniq0'] else 0,
-                                ' ; '.join(enc_op(op) for op in case['ops'] if op[0] != 'G'))
+                                ' ; '.join(enc_op(op) for op in case['ops'] if op[0] not in SKIP_OPS))
 
 
 def norm_op(op):
     op = list(op)
     if op[0] == 'C':
         return ('C', tuple(tuple(x) for x in op[1]))
-    if op[0] == 'S':
-        return ('S', op[1], tuple(tuple(x) for x in op[2]))
+    if op[0] in ('S', 'TS'):
+        return (op[0], op[1], tuple(tuple(x) for x in op[2]))
     return tuple(op)
 
 
@@ -147,7 +166,8 @@ def norm_case(case):
         ops = [norm_op(op) for op in case['ops']]
     return {'mode': mode, 'uniq0': bool(case.get('uniq0', False)), 'ops': ops, 'nomodel': bool(case.get('nomodel', False)),
             'cull': tuple(case['cull']) if case.get('cull') else None,
-            'ids': case.get('ids'), 'idlist': list(case.get('idlist') or [])}
+            'ids': case.get('ids'), 'idlist': list(case.get('idlist') or []), 'sib': bool(case.get('sib')),
+            'noguard': bool(case.get('noguard'))}
 
 
 def colname(k):
@@ -159,7 +179,8 @@ def make_class(uniq0, mode, cull=None, ids=None):
     from sqlobject import SQLObject, IntCol
     from sqlobject.versioning import Versioning
     e = env()
-    base = {'mem': e['mem'], 'nocache': e['nocache'], 'twodb': e['mem'], 'tx': e['file'], 'cull': e['cull']}[mode]
+    base = {'mem': e['mem'], 'nocache': e['nocache'], 'twodb': e['mem'], 'tx': e['file'], 'cull': e['cull'],
+            'txmix': e['file'], 'txmixnc': e['filenc']}[mode]
     if mode == 'cull':
         # culls (strong -> weak references) happen every few creations / get()s within the history; an instance
         # the harness holds must stay THE instance of its row through any number of culls
@@ -190,6 +211,23 @@ def make_class(uniq0, mode, cull=None, ids=None):
         trans = base.transaction()
         conns[0] = trans          # every master of the case is bound to the transaction
     return cls, conns, trans
+
+
+def make_sibling(conn):
+    """a second versioned class whose version table has an EXTRA column named like a master column (c1) of the class
+    under test; its own master has c0 only"""
+    from sqlobject import SQLObject, IntCol
+    from sqlobject.versioning import Versioning
+    name = sqlo.uniq('C20S')
+
+    class sqlmeta:
+        table = name.lower()
+    cls = type(name, (SQLObject,), {
+        '_connection': conn, 'sqlmeta': sqlmeta, 'c0': IntCol(default=0, dbName='c0'),
+        'versions': Versioning(extraCols={colname(1): IntCol(default=5, dbName='c1'),
+                                          colname(2): IntCol(default=6, dbName='c2')})})
+    cls.createTable()
+    return cls
 
 
 def exc_out(e):
@@ -246,6 +284,7 @@ def run_case(case, oracle=None):
 
     def rid(d, m):
         return real.get((d, m), m) if ids else m
+    sib = {'cls': None, 'obj': None}
     explicit = (mode in ('twodb', 'tx'))
     objs = {}        # (db, id) -> instance
     hist = {}        # (db, id) -> successive row states (harness-side; only successful operations append)
@@ -271,6 +310,44 @@ def run_case(case, oracle=None):
             d, op = item if mode == 'twodb' else (0, item)
             out = 'ok'
             k = op[0]
+            if k == 'X':
+                # activity on ANOTHER versioned class of the same process, declared with Versioning(extraCols=...) whose
+                # extra column is named like a real column of the class under test: create / update / restore there
+                if sib['cls'] is None:
+                    sib['cls'] = make_sibling(conns[0] if trans is None else cls._connection)
+                    sib['obj'] = sib['cls'](c0=1)
+                else:
+                    so = sib['obj']
+                    so.c0 = (so.c0 or 0) + 1
+                    sv = list(so.versions)[0]
+                    want = sv.c0
+                    sv.restore()
+                    rawv = sib['cls']._connection.queryAll('SELECT c0 FROM %s WHERE id = %d' % (sib['cls'].sqlmeta.table, so.id))
+                    if (rawv[0][0] != want or so.c0 != want) and oracle is not None:
+                        oracle('C20:restore-not-equal-version', 'second versioned class (extraCols): after restore the row holds %s, '
+                               'the instance shows %s, the version held %s' % (rawv[0][0], so.c0, want), n)
+                continue
+            if k == 'TX':
+                # an assignment through a transaction that is rolled back: nothing may change, not even the held instance
+                if (d, op[1]) in objs:
+                    t = conns[d].transaction()
+                    try:
+                        mt = cls.get(rid(d, op[1]), connection=t)
+                        setattr(mt, colname(op[2]), op[3])
+                    finally:
+                        t.rollback()
+                        t.begin()
+                        t.commit(close=True)
+                    for key, got, shown, foreign in check_history(n, op):
+                        if got != hist[key]:
+                            if oracle is not None:
+                                oracle('C20:versions-not-history', 'master %s (mode %s): after a rolled back transactional update '
+                                       'versions+current = %s, history = %s' % (key, mode, got, hist[key]), n)
+                            hist[key] = got
+                        elif shown != got[-1] and oracle is not None:
+                            oracle('C20:held-master-stale', 'master %s (mode %s): after a rolled back transactional update the held '
+                                   'instance shows %s, its row is %s' % (key, mode, shown, got[-1]), n)
+                continue
             if k == 'G':
                 # `Master.get(id)` of a master the harness holds: no model step; it must return the held instance
                 if (d, op[1]) in objs:
@@ -303,6 +380,32 @@ def run_case(case, oracle=None):
                     else:
                         target = (d, op[1])
                         setattr(objs[target], colname(op[2]), op[3])
+                elif k in ('T', 'TS'):
+                    # the update is made through a transaction (its own instance of the row) and committed; the instance the
+                    # harness holds on the plain connection must follow
+                    if (d, op[1]) not in objs or (k == 'T' and op[2] >= NCOLS):
+                        out = 'nohandle'
+                    else:
+                        target = (d, op[1])
+                        t = conns[d].transaction()
+                        try:
+                            mt = cls.get(rid(d, op[1]), connection=t)
+                            if k == 'T':
+                                setattr(mt, colname(op[2]), op[3])
+                            else:
+                                mt.set(**{colname(kk): v for kk, v in op[2]})
+                            t.commit(close=True)
+                        except Exception:
+                            t.rollback()
+                            t.begin()
+                            t.commit(close=True)
+                            raise
+                        if not case.get('noguard'):
+                            # guarded stream: after a commit the program fetches the master again.  commit() expires the
+                            # plain connection's instance and SQLObject.expire() also evicts it from that cache (open
+                            # C04:expire-then-get), so the old handle is no longer THE instance of the row; the unguarded
+                            # consequence for versioning is replayed by WITNESS_DETACHED under KEY_DETACHED
+                            objs[target] = cls.get(rid(*target), **kwconn(d))
                 elif k == 'S':
                     if (d, op[1]) not in objs:
                         out = 'nohandle'
@@ -435,11 +538,30 @@ def gen_case(rng, clean, mode='mem'):
     for d in range(ndb):
         ops.append((d, ('C', ((0, first + d),))))
         nm[d] = 1
+    txmix = mode in ('txmix', 'txmixnc')
+    if txmix:
+        uniq0 = False        # a rejected UPDATE inside a transaction is rolled back together with its version row
+    sibling = mode != 'tx' and rng.random() < 0.3
     maxm = 7 if mode == 'cull' else 4
     for _ in range(rng.randint(3, 12 if mode == 'tx' else (30 if mode == 'cull' else 20))):
         r = rng.random()
         d = rng.randint(0, ndb - 1)
         m = rng.randint(1, nm[d]) if rng.random() < 0.96 else nm[d] + 1
+        if sibling and rng.random() < 0.15:
+            ops.append((d, ('X',)))                 # another versioned class (extraCols) is used in between
+            continue
+        if txmix and rng.random() < 0.35:
+            # the update goes through a transaction: committed (model: an ordinary update) or rolled back (model: nothing)
+            rr = rng.random()
+            if rr < 0.5:
+                ops.append((d, ('T', m, rng.randint(0, NCOLS - 1), gen_val(rng, 0.0))))
+                nv[d] += 1
+            elif rr < 0.8:
+                ops.append((d, ('TS', m, tuple((k2, v2) for k2, v2 in gen_kw(rng, 0.0) if k2 < NCOLS))))
+                nv[d] += 1
+            else:
+                ops.append((d, ('TX', m, rng.randint(0, NCOLS - 1), gen_val(rng, 0.0))))
+            continue
         if mode == 'cull' and rng.random() < 0.3:
             ops.append((d, ('G', rng.randint(1, nm[d]))))      # get() of some master: counts towards the next cull
             continue
@@ -465,7 +587,7 @@ def gen_case(rng, clean, mode='mem'):
                 nv[d] += 1
     if mode != 'twodb':
         ops = [op for _, op in ops]
-    case = {'mode': mode, 'uniq0': uniq0, 'ops': ops}
+    case = {'mode': mode, 'uniq0': uniq0, 'ops': ops, 'sib': sibling}
     r = rng.random()
     if r < 0.25:
         # string primary keys, mostly numeric look-alikes; the same keys are used in every database of the case
@@ -505,7 +627,18 @@ WITNESS_CONN = {'mode': 'twodb', 'uniq0': False,
                 'ops': [(0, ('C', ((0, 1),))), (1, ('C', ((0, 10),))), (1, ('A', 1, 0, 11)), (1, ('R', 1))]}
 # the same call inside a transaction (the master is not visible to the default connection: SQLObjectNotFound)
 WITNESS_TX = {'mode': 'tx', 'uniq0': False, 'ops': [('C', ((0, 5),)), ('A', 1, 0, 6), ('R', 1)]}
-CANON = {KEY_FAILED: WITNESS, KEY_RESTORE_CONN: WITNESS_CONN}
+# update through a committed transaction, then restore, then update through the instance held all along
+WITNESS_DETACHED = {'mode': 'txmix', 'noguard': True, 'nomodel': True, 'uniq0': False,
+                    'ops': [('C', ((0, 20),)), ('T', 1, 2, 0), ('R', 1), ('A', 1, 2, 7)]}
+CANON = {KEY_FAILED: WITNESS, KEY_RESTORE_CONN: WITNESS_CONN, KEY_DETACHED: WITNESS_DETACHED}
+
+
+def _listed_open(key):
+    try:
+        path = os.path.join(os.path.dirname(os.path.dirname(os.path.abspath(__file__))), 'known_findings.json')
+        return any(f.get('key') == key and f.get('status') == 'open' for f in json.load(open(path))['findings'])
+    except Exception:
+        return False
 
 
 def case_json(case):
@@ -515,10 +648,10 @@ def case_json(case):
 def run(ctx):
     env()
     rng = ctx.rng
-    cases = [WITNESS, WITNESS_CONN, WITNESS_TX] + corpus_cases()
+    cases = [WITNESS, WITNESS_CONN, WITNESS_TX, WITNESS_DETACHED] + corpus_cases()
     n = ctx.budget(800, 7000)
     for i in range(n):
-        mode = ('mem', 'cull', 'nocache', 'twodb', 'mem', 'cull', 'nocache', 'twodb', 'cull')[i % 9]
+        mode = ('mem', 'cull', 'nocache', 'twodb', 'txmixnc', 'mem', 'cull', 'nocache', 'twodb', 'cull', 'txmix')[i % 11]
         cases.append(gen_case(rng, clean=(i % 3 != 2), mode=mode))
     for i in range(ctx.budget(60, 400)):
         cases.append(gen_case(rng, clean=(i % 3 != 2), mode='tx'))
@@ -539,9 +672,21 @@ def run(ctx):
                   'nocache': 'cache=False connection: tables after every step = model',
                   'twodb': 'two databases (connection=): tables of both after every step = model',
                   'tx': 'masters bound to a transaction: tables seen by the transaction = model',
-                  'cull': 'cache culled every few creations/gets: tables after every step = model'}[mode]
+                  'cull': 'cache culled every few creations/gets: tables after every step = model',
+                  'txmix': 'plain connection + committed / rolled back transactional updates: tables after every step = model',
+                  'txmixnc': 'the same on a cache=False connection: tables after every step = model'}[mode]
         if not case.get('nomodel'):
             ctx.compare(stream, case_json(case), outs[i] if outs is not None else None, impl)
+        if case.get('noguard'):
+            # every stale-instance failure of the unguarded witness is the known consequence of the detaching expire()
+            fails = [(KEY_DETACHED if key in ('C20:held-master-stale', 'C20:versions-not-history') else key, what, nstep)
+                     for key, what, nstep in fails]
+        if case.get('noguard') and not _listed_open(KEY_DETACHED):
+            # reported to the coordinator; until known_findings.json lists the key the replay is a note, not a verdict
+            for key, what, nstep in fails:
+                if key == KEY_DETACHED:
+                    ctx.note('finding awaiting its known_findings.json entry [%s]: %s' % (key, what[:300]))
+            fails = [f for f in fails if f[0] != KEY_DETACHED]
         seen = set()
         for key, what, nstep in fails:
             if key in seen:
